@@ -205,6 +205,20 @@ class Table:
                 raise MachineryError(f"Rep({c}) is of class {rep['c']}")
         return True
 
+    def library_names_missing(self):
+        """names a generated module can import that GenNames does not list (reported in the
+        evidence: the model would not flag a title formatting to one of them)"""
+        import inspect
+        import statham.schema.elements as els
+        from statham.schema.elements import Element
+        from statham.schema.elements.meta import ObjectMeta
+        real = {"Any", "List", "Union", "Maybe", "Property"}
+        for n, v in vars(els).items():
+            if inspect.isclass(v) and (issubclass(v, Element) or isinstance(v, ObjectMeta)) \
+                    and n != "CompositionElement":
+                real.add(n)
+        return sorted(real - self.gen)
+
 
 def label_of(ch):
     """what the model's "lab" group of a character concretises to"""
